@@ -233,7 +233,8 @@ impl BitFont {
         let length = u32::from_le_bytes(data[16..20].try_into().unwrap()) as i32;
         let charsize = u32::from_le_bytes(data[20..24].try_into().unwrap()) as i32;
         let expected = i64::from(length) * i64::from(charsize) + headersize as i64;
-        if length < 0 || charsize < 0 || expected != data.len() as i64 {
+        // a glyph has at least one byte: with charsize 0 every glyph count would fit the file
+        if length < 0 || charsize <= 0 || expected != data.len() as i64 {
             return Err(FontError::LengthMismatch(data.len(), expected as usize).into());
         }
         let height = u32::from_le_bytes(data[24..28].try_into().unwrap()) as usize;
